@@ -574,3 +574,64 @@ for _which in ("_tactic_1", "_tactic_3"):
             shards=_sh,
             weight=8 if _nctx > 1 else 2,
         )(_tactic1(_nctx, _names, _elims, _which))
+
+
+# ------------------------------------------------------------------------------------------------
+# solve_for_variables itself, over the sympy model (A6): the call-site contract SolveContract is what the tactics use
+# ------------------------------------------------------------------------------------------------
+def _solve_for(nterms, names, elims):
+    def c(h):
+        s = S(h)
+        terms = [s.term("g%d" % i, names, allow_empty=False) for i in range(nterms)]
+        ctx = s.termlist(terms)
+        elim = elims[h.ctx.choose(len(elims), "elim")]
+        snaps = [s.snapshot(t) for t in terms]
+        out = h.call(h.I.get_func(POLY + ":PolyhedralTerm.solve_for_variables"), [ctx, PList([s.var(n) for n in elim], h.ctx)])
+        cvars = []
+        for t in terms:
+            for n in s.coefs(t):
+                if n not in cvars:
+                    cvars.append(n)
+        vts = [n for n in cvars if n in elim]
+        if out.kind == "raise":
+            h.check("C14.solve_for_variables.only_valueerror", out.exc_is(h.I, ValueError), "raised %s at %s" % (out.exc_name, out.where))
+            h.check("C04.solve_for_variables.declines_only_on_non_square_systems", len(terms) != len(vts), "ValueError for a square system")
+            h.cover("declined")
+            return
+        h.check("C04.solve_for_variables.non_square_system_rejected", len(terms) == len(vts), "%d equations for %d unknowns accepted" % (len(terms), len(vts)))
+        r = out.value
+        h.check("C04.solve_for_variables.returns_dict", isinstance(r, PDict), "%r" % (r,))
+        if not isinstance(r, PDict) or len(terms) != len(vts):
+            return
+        if not r.keys:
+            h.cover("no_unique_solution")
+            return
+        h.cover("solved")
+        got = {r.keys[k].attrs.get("_name"): r.vals[k] for k in r.keys}
+        h.check("C04.solve_for_variables.solves_exactly_the_unknowns", set(got) == set(vts) and all(s.is_term(v) for v in got.values()), "keys %s" % sorted(got))
+        if set(got) == set(vts) and all(s.is_term(v) for v in got.values()):
+            # substituting the solutions makes every equation hold identically:  e(t, b[x_j := e(sol_j, b)]) == 0
+            sub = {n: s.e(got[n]) for n in vts}
+            for i, t in enumerate(terms):
+                h.ensure("C04.solve_for_variables.solution_satisfies_equation_%d" % i, s.e(t, sub) == 0)
+            for n in vts:
+                h.check("C04.solve_for_variables.solution_of_%s_mentions_no_unknown" % n, not (set(s.coefs(got[n])) & set(vts)), "solution mentions an unknown")
+        h.check("C13.operands_unchanged", all(s.unchanged(t, sn) for t, sn in zip(terms, snaps)), "operand modified")
+        h.frame_ok(out, "C13.frame")
+
+    return c
+
+
+for _n, _names, _elims, _sh in ((1, V2, [["y"], ["x", "y"], ["w"]], 1), (2, V3, [["x", "y"], ["y"], ["y", "x"]], 8)):
+    contract(
+        "PolyhedralTerm.solve_for_variables[%d equations]" % _n,
+        ["C04", "C14", "C13"],
+        [POLY + ":PolyhedralTerm.solve_for_variables", POLY + ":PolyhedralTerm.to_symbolic", POLY + ":PolyhedralTerm.to_term"],
+        "S",
+        bound="%d terms over {%s} (every support); unknowns %s" % (_n, ",".join(_names), _elims),
+        assumes=["A6"],
+        covers=["solved", "declined"] + (["no_unique_solution"] if _n == 2 else []),
+        chain=["C01", "C02"],
+        shards=_sh,
+        weight=2 * _n,
+    )(_solve_for(_n, _names, _elims))
